@@ -11,7 +11,7 @@ DECIDES = ('in-place discipline of translate / rotate / scale / transpose / flip
            '(unweighted) control point view, so weights are re-applied unchanged by the rational setters (KD4, with C09/LY3 on those setters); '
            'the per-point maps extracted from the source are the stated affine maps: translate p[i] + vec[i] index-aligned, scale p[i] * m, '
            'each rotate_* a matrix that is orthogonal with determinant +1 and fixes its axis as a polynomial identity modulo cos^2 + sin^2 = 1, '
-           'sandwiched between a translation by -origin and its exact negation (AL1-AL3); the rotation origin is evaluated at the start of the '
+           'sandwiched between a translation by -origin and its exact negation (AL1-AL3); the rotation origin is evaluated once, on the first element and outside the loop over the elements (OR1.single-origin), at the start of the '
            'domain of *every* direction (OR1); both class hierarchies implement the iteration protocol that lets the transforms treat shapes '
            'and containers alike: __iter__ rewinds and returns self, __next__ yields each element once then stops (IT1).')
 NOT_DECIDED = 'affine invariance of B-spline/NURBS evaluation itself (mathematics, trusted) and equality of evaluated points (needs C01); floating-point rounding of cos/sin.'
@@ -264,6 +264,20 @@ def origin(m, run):
            'the origin parameter list is not the start of the domain of each direction i (element must be domain[i][0] with i ranging over the parametric dimensions)', site(fi))
     ev = [c for c in walk_no_nested(fi.node) if isinstance(c, ast.Call) and isinstance(c.func, ast.Attribute) and c.func.attr == 'evaluate_single']
     run.ob('OR1.rotation-origin', fi.key + ' :: evaluated', len(ev) == 1, 'origin = evaluate_single(params) of the first element', site(fi))
+    # one map for the whole input: the origin is computed once, from the first element, outside the loop that rotates the elements
+    if len(ev) == 1:
+        loops = []
+        p = getattr(ev[0], '_sa_parent', None)
+        while p is not None and p is not fi.node:
+            if isinstance(p, (ast.For, ast.While)):
+                loops.append(p)
+            p = getattr(p, '_sa_parent', None)
+        recv = ev[0].func.value
+        first = isinstance(recv, ast.Subscript) and norm(recv.slice) == '0'
+        ok1 = not loops and first
+        run.ob('OR1.single-origin', fi.key, ok1, 'the origin is evaluated once on element [0], before the elements are rotated' if ok1 else
+               ('the origin is re-evaluated inside the loop over the elements: every element of a container is rotated about its own start point, not about one common axis'
+                if loops else 'the origin is evaluated on `%s`, not on the first element' % norm(recv)), site(fi, ev[0]))
 
 
 def iteration(m, run):
